@@ -442,4 +442,29 @@ Proof.
   destruct (hist_from_inv fuel _ _ _ _ Ia Hb) as [_ [_ [_ [[_ [_ [_ N]]] _]]]]. apply N. assumption.
 Qed.
 
+(* ---------- the failing-call model extends Model/GenCache.v: an answered call is answered alike, with the same state ---------- *)
+Lemma fold_refines (rf : state K -> K -> state K * outcome) (r : state K -> K -> result (state K * nat)) :
+  (forall st k st' m, rf st k = (st', Ret m) -> r st k = Ok (st', m)) ->
+  forall ks st st' ms, fold_f rf st ks = (st', FRet ms) -> fold_calls r st ks = Ok (st', ms).
+Proof.
+  intros Hr. induction ks as [|k ks IH]; intros st st' ms H; simpl in H |- *.
+  - inversion H. reflexivity.
+  - destruct (rf st k) as [st1 [m|e]] eqn:R; [|discriminate]. rewrite (Hr _ _ _ _ R). simpl.
+    destruct (fold_f rf st1 ks) as [st2 [ms2|e]] eqn:F; inversion H; subst. rewrite (IH _ _ _ F). reflexivity.
+Qed.
+
+Lemma run_f_refines : forall fuel st k st' m, runf fuel st k = (st', Ret m) ->
+  run keqb prog gen_name has_params (sfx suffix) fuel st k = Ok (st', m).
+Proof.
+  induction fuel as [|f IHf]; intros st k st' m H; simpl in H |- *; [discriminate|].
+  destruct (lookup k (done st)) as [m0|]; [inversion H; reflexivity|].
+  destruct (memk k (pending st)); [discriminate|].
+  fold (enter k st).
+  destruct (fold_f (runf f) (enter k st) (b_calls (prog k))) as [st2 [ms|e]] eqn:F; [|discriminate].
+  rewrite (fold_refines _ _ IHf _ _ _ _ F). simpl.
+  destruct (b_ret (prog k)) as [o|i].
+  - destruct (nameok k); [|discriminate]. inversion H; subst. reflexivity.
+  - destruct (nth_error ms i); [|discriminate]. inversion H; subst. reflexivity.
+Qed.
+
 End ProofsF.
